@@ -276,6 +276,21 @@ func runAll(c *run.Ctx) {
 			checkTree(k, t, false)
 		})
 	}
+	// curves of every length 1..140 (and around 256, 512, 1024) followed by further curves
+	sidx := 0
+	sizes := []int{254, 255, 256, 257, 258, 511, 512, 513, 1023, 1024, 1025}
+	for sn := 1; sn <= 140; sn++ {
+		sizes = append(sizes, sn)
+	}
+	for _, sn := range sizes {
+		for _, ct := range model.CTypes {
+			for kind := 0; kind < 3; kind++ {
+				sidx++
+				sn, ct, kind := sn, ct, kind
+				c.Case("sized", sidx, func(k *run.K) { checkTree(k, model.SizedTree(kind, sn, ct), kind != 1 && sn >= 2) })
+			}
+		}
+	}
 	// typed empties of all 7x4
 	idx := 0
 	for _, typ := range model.Types {
